@@ -464,6 +464,20 @@ def run_bp_case(name, dtype, raw, t, is_async, dest_kind, rng):
             fail("roundtrip-dtype-or-shape", f"stager->consumer gave dtype {out.dtype} shape {list(out.shape)}")
         elif C17_bits(out) != expected:
             fail("roundtrip-bits", f"stager->consumer (dest={dest_kind}, async={is_async}) result has different bits")
+        # 4. the same through the TILED read (a buffer limit: what read_object(memory_budget_bytes=..) uses): every tile
+        # consumes its byte range of the staged buffer, tiles in reverse order
+        if t.nelement() > 0:
+            for limit in (1, max(1, (es * t.nelement()) // 2), es * t.nelement() + 1):
+                dest = C17_dest(rng, dest_kind, shape, dtype)
+                rrs, fut = TensorIOPreparer.prepare_read(entry, dest, buffer_size_limit_bytes=limit)
+                for rr in reversed(rrs):
+                    lo, hi = rr.byte_range if rr.byte_range is not None else (0, len(staged))
+                    C17_run(rr.buffer_consumer.consume_buffer(staged[lo:hi]))
+                out = fut.obj
+                if out.dtype != dtype or list(out.shape) != shape:
+                    fail("tiled-roundtrip-dtype-or-shape", f"tiled read (limit {limit}, {len(rrs)} tiles, dest={dest_kind}) gave dtype {out.dtype} shape {list(out.shape)}")
+                elif C17_bits(out) != expected:
+                    fail("tiled-roundtrip-bits", f"tiled read (limit {limit}, {len(rrs)} tiles, dest={dest_kind}) result has different bits")
     except Exception as e:
         fail("stager-consumer-raises", f"stager->consumer raised {type(e).__name__}: {str(e)[:120]}")
     return fails, got
